@@ -12,7 +12,7 @@
    channel closes: the model has a poll label and the theorems say what that poll returns; the
    correspondence check (paused-clock runs to quiescence) is what ties "is woken" to the code.
    (3) The typed downcast of the boxed reply (the harness uses one reply type per request id). *)
-From RS Require Import Tactics Spec Lifecycle Queue QueueStep CoreInv Delivery OpsSpec OpCases AccTrace Reply Join Chan ChanInv.
+From RS Require Import Tactics Spec Lifecycle Queue QueueStep CoreInv Delivery OpsSpec OpCases AccTrace Reply Join Chan ChanInv AChan ChanRefine.
 
 (* Ok(v) returned by an ask is the value sitting in that request's own reply slot, put there by a
    handler that ran for that very request id and did not panic *)
@@ -170,6 +170,21 @@ Proof. exact drain_progress. Qed.
 Theorem C03_chan_invariant : forall w cap n ls, pinv w (crun w cap n ls).
 Proof. exact pinv_run. Qed.
 
+(* the send of the rest of this development is one step (permit and push together).  That is
+   justified: every execution at permit granularity, under the exit protocol of the source, shows
+   exactly what some execution of the mailbox with atomic sends (Model/AChan.v) shows - the same
+   messages handled and dropped in the same order, the same queue, every sender the same answers;
+   a push that lands after close() is an acceptance just before it (forward simulation in which the
+   atomic side runs ahead by the late pushes, Proofs/ChanRefine.v) *)
+Theorem C03_permit_granularity_refines_atomic_sends : forall cap n ls,
+  exists las, cview (crun exit_waits_for_permits cap n ls) = aview (arun cap n las).
+Proof. exact chan_refines_atomic. Qed.
+
+(* ... and not under the old protocol: its stranded envelope has no atomic counterpart *)
+Theorem C03_old_protocol_not_atomic :
+  ~ exists las, cview (crun false 1 1 strand_witness) = aview (arun 1 1 las).
+Proof. exact old_protocol_not_atomic. Qed.
+
 Example C03_chan_example :
   let c := crun true 2 2 [KAcquire 0; KAcquire 1; KPush 1; KRecv; KAcquire 1; KClose; KPush 0; KFail 0;
                           KDrain; KExit; KGiveBack 1; KExit] in
@@ -202,3 +217,6 @@ Print Assumptions C03_shutdown_loop_measure.
 Print Assumptions C03_shutdown_loop_progress.
 Print Assumptions C03_chan_invariant.
 Print Assumptions C03_chan_example.
+Check C03_permit_granularity_refines_atomic_sends. Check C03_old_protocol_not_atomic.
+Print Assumptions C03_permit_granularity_refines_atomic_sends.
+Print Assumptions C03_old_protocol_not_atomic.
